@@ -4,8 +4,8 @@ N(id, pp, nm, kd, bd) == [id |-> id, p |-> pp, n |-> nm, k |-> kd, b |-> bd]
 \* mirrors checks/mkrm.py CONC_TREES["rm"] (reduced): a/{b/{c/{f1}, f2}, l_out -> ../../out}, e/keep
 NodesRm == << N(5, R, "a", "dir", <<>>), N(6, 5, "b", "dir", <<>>), N(7, 6, "c", "dir", <<>>), N(8, 7, "f1", "file", <<>>), N(9, 6, "f2", "file", <<>>),
               N(10, 5, "l_out", "lnk", <<"..", "..", "out">>), N(12, R, "e", "dir", <<>>), N(13, 12, "keep", "file", <<>>),
-              N(11, R, "swap", "lnk", <<"..", "out">>) >>
+              N(11, R, "swap", "lnk", <<"..", "out">>), N(14, R, "swap2", "lnk", <<"..", "..", "out">>) >>
 RA == [nodes |-> NodesRm, dir |-> R, name |-> "a", swap |-> <<R, "swap">>]
-RB == [nodes |-> NodesRm, dir |-> 5, name |-> "b", swap |-> <<R, "swap">>]
+RB == [nodes |-> NodesRm, dir |-> 5, name |-> "b", swap |-> <<R, "swap2">>]
 RL == [nodes |-> NodesRm, dir |-> 5, name |-> "l_out", swap |-> <<R, "swap">>]
 ====
